@@ -1,7 +1,7 @@
 SPECIFICATION Spec
 CONSTANTS
   Names = {"x"}
-  FileTok = {"f1"}
+  FileTok = {"f2"}
   EnvTok = {"e1"}
   ExecTok = {"p1"}
   SbomTok = {"s1"}
